@@ -63,7 +63,7 @@ def scenario(rng: random.Random) -> Dict[str, Any]:
         if rng.random() < 0.3:
             queries.append({"off": off + rng.choice([15, 50, 120, 400]), "svc": svcs.index(target), "kind": rng.choice(["ptr", "srv", "multi"]),
                             "qu": False, "legacy": False, "tc": False})
-    return {"svcs": svcs, "victim": rng.randrange(n), "gap": gap, "queries": queries, "api": rng.choice(["unregister", "unregister", "unregister", "close"]),
+    return {"svcs": svcs, "victim": rng.randrange(n), "gap": gap, "queries": queries, "api": rng.choice(["unregister", "unregister", "unregister", "close", "unregister_all"]),
             "layout": rng.choice(["single", "split"])}
 
 
@@ -131,6 +131,11 @@ def run_scenario(res: Result, seed: int) -> None:
                 await task
                 await sim.sleep_ms(5000)
                 await azc.async_close()
+            elif sc["api"] == "unregister_all":
+                # every service withdrawn at once while the instance keeps running (and keeps receiving the queries)
+                await zc.async_unregister_all_services()
+                await sim.sleep_ms(5000)
+                await azc.async_close()
             else:
                 await azc.async_close()
                 await sim.sleep_ms(5000)
@@ -150,8 +155,8 @@ def run_scenario(res: Result, seed: int) -> None:
 def analyse(res: Result, sim: simnet.Sim, sc: Dict[str, Any], out: Dict[str, Any], viol) -> None:
     svcs: List[Svc] = sc["svcs"]
     U = out["U"]
-    withdrawn = svcs if sc["api"] == "close" else [svcs[sc["victim"]]]
-    remaining = [] if sc["api"] == "close" else [s for s in svcs if s is not svcs[sc["victim"]]]
+    withdrawn = svcs if sc["api"] in ("close", "unregister_all") else [svcs[sc["victim"]]]
+    remaining = [] if sc["api"] in ("close", "unregister_all") else [s for s in svcs if s is not svcs[sc["victim"]]]
     trace = [e for e in sim.net.trace if e["t"] >= U - 1e-6 and e["i"] >= 0]
     # one entry per datagram *per sending socket*: analyse per socket so split layouts are not double counted
     by_sock: Dict[int, List[Dict[str, Any]]] = {}
